@@ -25,6 +25,6 @@ Deliver, inside {wt}/SEED/ :
   - a demonstration: a Go test file (put a copy in SEED/ and say in meta.json where in the tree it has to be placed to run, e.g. util/seed_demo_test.go) or a small Go program, which FAILS with your change applied and PASSES on the unchanged code. It must be deterministic (if it needs an interleaving, force it with explicit synchronisation or hooks in the test, not sleeps-and-hope; loops that retry many times are acceptable only if each run is conclusive).
   - meta.json : {{"property": "{pid}", "summary": one sentence, "needs": what specific condition is needed to manifest, "files_changed": [...], "demo_path": where the demo must be placed, "demo_cmd": the exact go test command, "existing_tests_cmd": the go test command(s) you ran to confirm existing tests still pass, "existing_tests_result": "pass"}}
 
-Environment: no network. For every shell call that runs go: `export GOFLAGS=-mod=mod GOPROXY=off GOSUMDB=off GOTOOLCHAIN=local`. Use `go test -vet=off -count=1 ./pkg/...`. Run the demonstration both with your change (must fail) and after `git stash`/reverting the source change (must pass), then re-apply the change so the worktree ends with the change applied and SEED/ filled. Keep build output out of the worktree. Some existing tests are slow (tens of seconds); a few need no external services — if a test in a touched package fails identically WITHOUT your change, note it in meta.json and ignore it.
+Environment: no network. For every shell call that runs go: `export GOFLAGS=-mod=mod GOPROXY=off GOSUMDB=off GOTOOLCHAIN=local`. Use `go test -vet=off -count=1 ./pkg/...`. NEVER use `git stash` (the stash is shared between worktrees and other people use it): to revert and re-apply your change use `git apply -R SEED/patch.diff` and `git apply SEED/patch.diff`. Run the demonstration both with your change (must fail) and with the source change reverted (must pass), then re-apply the change so the worktree ends with the change applied and SEED/ filled. Keep build output out of the worktree. Some existing tests are slow (tens of seconds); a few need no external services — if a test in a touched package fails identically WITHOUT your change, note it in meta.json and ignore it.
 
 Your final message: the summary, what is needed to manifest, and the commands you ran with their results (short).""")
